@@ -42,7 +42,8 @@ def gen_table(rng, tier, order=False, ll=None):
         if kind != "capture":
             n = rng.choice([0, 1, 2, 2, 3, 4]) if kind != "consistentHashing" else rng.choice([1, 2, 3])
             for _ in range(n):
-                addr = rng.choice([a for a in ADDRS if a not in used] or ADDRS)
+                k = len(used) + 1
+                addr = rng.choice(["127.0.%d.%d:1" % (k // 200, k % 200 + 1), "127.0.%d.%d:2:i%d" % (k // 200, k % 200 + 1, k)])
                 used.add(addr)
                 r["dests"].append({"m": G.gen_matcher(rng, p_any=.3) if kind != "consistentHashing" else G.gen_matcher(rng, p_any=1), "addr": addr})
         c["routes"].append(r)
